@@ -126,3 +126,21 @@ Example c11_witness :
 Proof.
   split; [exact ex_log_valid|]. repeat split; vm_compute; reflexivity.
 Qed.
+
+(* The theorems above quantify over logs written by any number of writer epochs (a commit marker and its
+   frames carry the epoch: c_epoch / f_epoch; the tiling check ignores it).  Non-vacuity for that case:
+   a valid log written by three writer epochs (5, 6, 7, 7); removing the last marker of an epoch or the
+   first marker of its successor - with later markers of other epochs surviving - is an error, through
+   the marker vector and through the bytes. *)
+Example c11_multi_epoch :
+  log_valid exH 0 ex_log2 /\
+  map (fun t => c_epoch (w_commit t)) ex_log2 = [5; 6; 7; 7] /\
+  recover_fc exH (log_frames ex_log2) (map w_commit ex_log2) = Ok (map rtx_of ex_log2, TClean) /\
+  recover_fc exH (log_frames ex_log2) (map w_commit [ex2_t1; ex2_t3; ex2_t4]) = Err VLsn /\
+  recover_fc exH (log_frames ex_log2) (map w_commit [ex2_t1; ex2_t2; ex2_t4]) = Err VLsn /\
+  recover_fc exH (log_frames ex_log2) (map w_commit [ex2_t2; ex2_t3; ex2_t4]) = Err VLsn /\
+  summarize (recover_segment exH 1 (encode_log exH (remove_nth 4 (log_recs ex_log2)))) = summarize (Err VLsn) /\
+  summarize (recover_store exH (encode_log exH (remove_nth 4 (log_recs ex_log2)))) = summarize (Err VLsn).
+Proof.
+  split; [exact ex2_log_valid|]. repeat split; vm_compute; reflexivity.
+Qed.
